@@ -531,3 +531,43 @@ Proof.
   apply tet_det_affine; [exact H4|]. apply Forall_forall. intros r Hin.
   rewrite forallb_forall in Hr. apply Nat.ltb_lt. apply Hr. exact Hin.
 Qed.
+
+(* ------------------------------------------------------------------ extrusion *)
+Local Close Scope Z_scope.
+(* extrude_spec: prism k + l*nt of MeshTri1 * MeshLine1 has the triangle k of layer l (vertices v + l*nv) as its
+   first rows and the same triangle of layer l+1 as its last rows *)
+Theorem extrude_t_spec (nv nlayers nt : nat) (t : mat nat) (i l k : nat) :
+  Forall (fun row => length row = nt) t -> i < 2 * length t -> l < nlayers - 1 -> k < nt ->
+  nth (k + l * nt) (nth i (extrude_t nv nlayers t) []) 0
+  = if i <? length t then nth k (nth i t []) 0 + l * nv
+    else nth k (nth (i - length t) t []) 0 + nv + l * nv.
+Proof.
+  intros Ht Hi Hl Hk. unfold extrude_t.
+  rewrite (map_nth_in _ (seq 0 (2 * length t)) i 0) by (rewrite seq_length; exact Hi).
+  rewrite seq_nth by exact Hi. simpl Nat.add.
+  set (B := fun l0 => map (map (fun v => v + l0 * nv)) t ++ map (map (fun v => v + nv + l0 * nv)) t).
+  assert (Hrow : forall l0, length (nth i (B l0) []) = nt).
+  { intros l0. unfold B. rewrite Forall_forall in Ht. destruct (Nat.lt_ge_cases i (length t)) as [Hlt|Hge].
+    - rewrite app_nth1 by (rewrite map_length; exact Hlt).
+      rewrite (map_nth_in _ t i []) by exact Hlt. rewrite map_length. apply Ht, nth_In. exact Hlt.
+    - rewrite app_nth2 by (rewrite map_length; exact Hge). rewrite map_length.
+      rewrite (map_nth_in _ t (i - length t) []) by lia. rewrite map_length. apply Ht, nth_In. lia. }
+  rewrite map_map. rewrite (nth_concat_blocks 0 nt).
+  - rewrite (map_nth_in _ (seq 0 (nlayers - 1)) l 0) by (rewrite seq_length; exact Hl).
+    rewrite seq_nth by exact Hl. simpl Nat.add. fold (B l). unfold B.
+    destruct (Nat.ltb_spec i (length t)) as [Hlt|Hge].
+    + rewrite app_nth1 by (rewrite map_length; exact Hlt).
+      rewrite (map_nth_in _ t i []) by exact Hlt.
+      rewrite Forall_forall in Ht.
+      rewrite (map_nth_in _ (nth i t []) k 0) by (rewrite (Ht (nth i t [])) by (apply nth_In; exact Hlt); exact Hk).
+      reflexivity.
+    + rewrite app_nth2 by (rewrite map_length; exact Hge). rewrite map_length.
+      rewrite (map_nth_in _ t (i - length t) []) by lia.
+      rewrite Forall_forall in Ht.
+      rewrite (map_nth_in _ (nth (i - length t) t []) k 0)
+        by (rewrite (Ht (nth (i - length t) t [])) by (apply nth_In; lia); exact Hk).
+      reflexivity.
+  - apply Forall_forall. intros b Hb. apply in_map_iff in Hb. destruct Hb as [l0 [<- _]]. apply Hrow.
+  - rewrite map_length, seq_length. exact Hl.
+  - exact Hk.
+Qed.
